@@ -207,6 +207,9 @@ def bound_for(scn, tier):
         return 1
     if k == 1:
         return 2
+    if scn.params.get("stagger"):
+        # staggered callers: one arrival order at d = 2, the rest at d = 1
+        return 2 if (k == 2 and scn.params.get("stagger") == 0.4 and scn.params["order"] == sorted(scn.params["order"])) else 1
     if k == 2 and scn.params.get("eager") and not scn.params.get("unsolicited"):
         return 2
     return 1
